@@ -176,6 +176,7 @@ static const char *do_xfer(const vh_step_t *st, vh_sb *ret, vh_sb *state) {
     wpos = rpos = 0; wcalls = rcalls = nsleep = 0; spin_detected = 0;
     cyclic = st->nargs > 4 && !strcmp(st->args[4], "cyc");
     sched_wfd = S[1]->fd;
+    errno = EAGAIN;                           /* adversarial prelude: a stale errno must not matter */
     sr = spif_socket_send(S[1], data);
     sched_wfd = -1;
     if (eof) {
@@ -185,6 +186,7 @@ static const char *do_xfer(const vh_step_t *st, vh_sb *ret, vh_sb *state) {
     }
     rguard = cyclic ? (L + 2) * (rlen_ + 1) + 64 : rlen_ + L / 4096 + 64;
     sched_rfd = S[2]->fd;
+    errno = EINTR;
     got = spif_socket_recv(S[2]);
     sched_rfd = -1; rguard = 0;
     wc = wpos; rc = rpos; wcl = wcalls; rcl = rcalls; sl = nsleep;
